@@ -464,7 +464,7 @@ class PyFat(object):
         for c in self.get_cluster_chain(cluster):
             cluster_sz += self.bytes_per_cluster
             last_cluster = c
-            if cluster_sz >= data_sz:
+            if cluster_sz >= data_sz and not erase:
                 break
 
         if data_sz > cluster_sz:
@@ -481,6 +481,8 @@ class PyFat(object):
         if erase:
             new_sz = max(1, math.ceil(data_sz / self.bytes_per_cluster))
             new_sz *= self.bytes_per_cluster
+            # Also wipe clusters of the chain that are not needed anymore
+            new_sz = max(new_sz, cluster_sz)
             data += b'\0' * (new_sz - data_sz)
 
         # Write actual data
